@@ -1516,6 +1516,12 @@ func (ctx Ctx) sliceRangeStmt(s *ast.RangeStmt) coq.Expr {
 }
 
 func (ctx Ctx) rangeStmt(s *ast.RangeStmt) coq.Expr {
+	if s.Tok == token.ASSIGN {
+		// `for k, v = range x` assigns to existing variables; the loops we
+		// emit bind fresh ones
+		ctx.unsupported(s, "range loop that assigns to existing variables (use :=)")
+		return nil
+	}
 	switch ctx.typeOf(s.X).Underlying().(type) {
 	case *types.Map:
 		return ctx.mapRangeStmt(s)
